@@ -28,6 +28,9 @@ class TlcResult:
 
 
 _seq = [0]
+# trace validations whose rejection budget ran out: the rest of such a trace was not examined.  A check that found violations reports them; a check that
+# found none must not pass on a partly examined trace (vlib.Check.finish turns that into a framework error).
+TRUNCATED = []
 
 
 def run(module, cfg, workers=8, simulate=None, depth=None, seed=None, env=None, timeout=1100, coverage=False,
@@ -144,9 +147,13 @@ def validate_trace(module, cfg, events, seg_key="reset", max_rejects=12, workers
         with concurrent.futures.ThreadPoolExecutor(len(chunks)) as ex:
             outs = list(ex.map(lambda c: _validate_trace(module, cfg, c, seg_key, max_rejects, workers, dfs, timeout, spec_dirs, "4g", True), chunks))
         info = dict(runs=sum(o[3]["runs"] for o in outs), wall=max(o[3]["wall"] for o in outs), chunks=len(chunks))
-        if any(o[3].get("truncated") for o in outs): info["truncated"] = True
+        if any(o[3].get("truncated") for o in outs):
+            info["truncated"] = True; TRUNCATED.append("%s (budget %d per chunk)" % (module, max_rejects))
         return sum(o[0] for o in outs), sum((o[1] for o in outs), []), sum(o[2] for o in outs), info
-    return _validate_trace(module, cfg, events, seg_key, max_rejects, workers, dfs, timeout, spec_dirs, heap, independent)
+    out = _validate_trace(module, cfg, events, seg_key, max_rejects, workers, dfs, timeout, spec_dirs, heap, independent)
+    if out[3].get("truncated"):
+        TRUNCATED.append("%s (budget %d)" % (module, max_rejects))
+    return out
 
 
 def _validate_trace(module, cfg, events, seg_key="reset", max_rejects=12, workers=1, dfs=False, timeout=1100, spec_dirs=(), heap="8g", independent=False):
